@@ -211,7 +211,7 @@ def doc_case(rng):
     # integer features `begin`/`end` of its own (never converted) and whose instance is written first
     aname = rng.choice(["x.A", "x.A", "text.Span", "Span", "q.tcas.Annotation"])
     twin = rng.random() < 0.5
-    return {"t1": t1, "t2": t2, "t1b": t1b, "anns": anns, "aname": aname, "twin": twin}
+    return {"t1": t1, "t2": t2, "t1b": t1b, "anns": anns, "aname": aname, "twin": twin, "redeclare": rng.random() < 0.4}
 
 
 def build_doc_cas(case):
@@ -221,6 +221,10 @@ def build_doc_cas(case):
     T = ts.create_type("x.Ref")
     ts.create_feature(T, "ref", "uima.tcas.Annotation")
     A = ts.create_type(case.get("aname", "x.A"))
+    if case.get("redeclare"):
+        # descriptors often list begin/end again on an annotation type: an identical redeclaration changes nothing
+        ts.create_feature(A, "begin", "uima.cas.Integer")
+        ts.create_feature(A, "end", "uima.cas.Integer")
     cas = Cas(ts, sofa_string=case["t1"])
     v2 = cas.create_view("v2")
     v2.sofa_string = case["t2"]
